@@ -13,7 +13,7 @@ var hostileKeys = []string{"CGO_ENABLED", "GOPROXY", "GOFLAGS", "GOWORK", "GOTOO
 var evilValues = map[string][]string{
 	"CGO_ENABLED": {"1", "0", "", "true", "01", " 0", "0 ", "1\n0"},
 	"GOPROXY":     {"https://evil.example", "direct", "off", "", "https://proxy.golang.org,direct", "off,https://evil.example", "OFF", "file:///tmp/evil"},
-	"GOFLAGS":     {"-mod=mod", "-mod=vendor", "", "-mod=readonly", "-mod=readonly -mod=mod", "-modfile=/tmp/evil.mod", "-overlay=/tmp/evil.json -mod=mod", "-toolexec=/tmp/evil", "-mod=mod\n-mod=readonly"},
+	"GOFLAGS":     {"-mod=mod", "-mod=vendor", "", "-mod=readonly", "-mod=readonly -mod=mod", "-modfile=/tmp/evil.mod", "-overlay=/tmp/evil.json -mod=mod", "-toolexec=/tmp/evil", "-mod=mod\n-mod=readonly", "--mod=mod", "-tags=foo --mod=mod", "--mod=vendor -buildvcs=false", "-tags=integration", "--mod mod"},
 	"GOWORK":      {"/tmp/evil/go.work", "", "off", "auto", "OFF", "on"},
 	"GOTOOLCHAIN": {"go1.99.0", "auto", "go1.99.0+auto", "path", "", "local", "LOCAL", "local+auto"},
 	"GONOSUMDB":   {"", "none", "*", "example.com"},
